@@ -122,8 +122,10 @@ func init() {
 			}
 			gb, batch, fetch := ir.OnDemand, ir.Batch, ir.Fetch
 			rd := balanceReaders(c)
-			c.CallOrder(ob2, "order:getBalance:fetch-after-batch", gb, func(f *ssa.Function) bool { return f == batch }, func(f *ssa.Function) bool { return f == fetch }, "the query is registered before the fetch")
-			c.CallOrder(ob2, "order:getBalance:read-after-fetch", gb, func(f *ssa.Function) bool { return f == fetch }, func(f *ssa.Function) bool { return f != fetch && f != batch && rd(f) }, "the balance is read only after the fetch")
+			// the fetch may be wrapped in a helper (error conversion)
+			isFetch := func(f *ssa.Function) bool { return f == fetch || (f != gb && rules.ReachesWithin(f, fetch, 2)) }
+			c.CallOrder(ob2, "order:getBalance:fetch-after-batch", gb, func(f *ssa.Function) bool { return f == batch }, isFetch, "the query is registered before the fetch")
+			c.CallOrder(ob2, "order:getBalance:read-after-fetch", gb, isFetch, func(f *ssa.Function) bool { return !isFetch(f) && f != batch && rd(f) }, "the balance is read only after the fetch")
 			run := c.Fn(ob2, relInterp, "RunProgram")
 			runSt := ir.Dispatcher
 			c.CallOrder(ob2, "order:RunProgram:statements-after-fetch", run, reachesAvoiding(c, fetch, gb), reachesFn(c, runSt), "statements run only after the balances were fetched")
